@@ -1,5 +1,6 @@
 """C06 - string length and pattern constraints are enforced exactly."""
 import itertools
+import json
 
 from vlib.kitchen import PATTERNS, Docs
 from vlib.valuecheck import build_cases, evaluate, replay, collide_root  # noqa: F401
@@ -67,7 +68,25 @@ def run(ctx):
                         gen_kwargs={"allow_formats": False}, extra_schemas=sysm, docs_per=2 if ctx.tier == "quick" else 4)
     from vlib.overlay import overlay_cases
     cases = cases + overlay_cases("string", "c06")
-    run_cases(ctx, cases, "c06")
+    # the same checks as emitted for the YAML decoder (a second rendering of the same validators)
+    from vlib.kitchen import Case
+    import copy as _copy
+    ycases = [Case(c.cid + "y", c.schema, _copy.deepcopy([d for d in c.docs if "raw" not in d and not d.get("prior")]), extra_imports=True, wire="yaml", fam="yaml/" + c.fam, no_model=True)
+              for c in cases if c.fam.startswith("systematic") or c.fam.startswith("overlay")]
+    jcases = [Case(c.cid + "j", c.schema, _copy.deepcopy(c.docs), extra_imports=True, wire="json", fam="yaml-twin/" + c.fam, no_model=True) for c in ycases]
+    run_cases(ctx, cases + ycases + jcases, "c06")
+    nyv = 0
+    for cy, cj in zip(ycases, jcases):
+        if not (cy.build_ok and cj.build_ok):
+            continue
+        for di, (dy, dj) in enumerate(zip(cy.docs, cj.docs)):
+            oy, oj = dy.get("obs") or {}, dj.get("obs") or {}
+            ctx.count({"s": cy.schema, "d": dy["doc"], "w": "yaml"}, True, "string constraints/yaml")
+            if dy["cls"] in ("string", "string-valid") and oy.get("v") != oj.get("v") and nyv < 3:
+                ctx.violation("oracle", cy.replay_obj(di), "string constraints through the YAML decoder: document %s (%s) is %s by UnmarshalJSON and %s by UnmarshalYAML" % (
+                    json.dumps(dy["doc"])[:200], dy["cls"], oj.get("v"), oy.get("v")))
+                nyv += 1
+                break
     evaluate(ctx, cases, CLASSES, {"string": "invalid", "string-valid": "valid", "optional-absent": "by-spec", "null-allowed": "valid", "valid": "valid"},
              "string constraints")
     from vlib.valuecheck import replay_findings
